@@ -92,3 +92,19 @@ func TestVerif_C08_LoginMachine(t *testing.T) {
 		r.classes(c08sRec)
 	})
 }
+
+var c09rRec = verifkit.New("TestVerif_C09_TokenJoinMachine", roomRule+
+	"the same machine with joins that present stateful tokens (with and without a username, for either group, one covering subgroups when the second group is a subgroup of "+
+	"the first) mixed with password joins, leaves and moderation of the token bearers (op/unop/present/unpresent/shutup/unshutup/kick); oracle: a token join is admitted iff "+
+	"the token names the group (or an ancestor with include-subgroups) and the admission rules allow it, and what it grants is exactly the token's permission list -- also "+
+	"for the second and third bearer of a token whose earlier bearers were moderated; non-trivial = >=2 joins with a token and >=1 permission change; distinct by intent log")
+
+func TestVerif_C09_TokenJoinMachine(t *testing.T) {
+	defer c09rRec.Flush()
+	rapid.Check(t, func(t *rapid.T) {
+		r := newRoom(t, "C09", rapid.IntRange(4, 6).Draw(t, "nclients"))
+		r.run(intentWeights{"join": 8, "leave": 4, "disconnect": 1, "moderate": 7, "chat": 1, "token": 1}, 40)
+		c09rRec.Case(r.tokenJoins >= 2 && r.st.permChanges > 0, r.canon(), r.sample())
+		r.classes(c09rRec)
+	})
+}
